@@ -599,6 +599,27 @@ func c17Unordered(c *run.Ctx, k int, wrapCounter bool) {
 	var keep *req
 	fillers := 0
 	if wrapCounter {
+		if c.Rng.Intn(2) == 0 {
+			// the request that stays open takes the last identifier of its range
+			w.Mu.Lock()
+			last := -1
+			for _, cn := range w.Conns {
+				pk, _, _ := wire.ParseStream(cn.Out, true)
+				for _, p := range pk {
+					if p.Type == wire.SUBSCRIBE || p.Type == wire.UNSUBSCRIBE {
+						last = int(p.ID & 0x1fff)
+					}
+				}
+			}
+			w.Mu.Unlock()
+			for i, pad := 0, (0x1fff-(last+1))&0x1fff; i < pad; i++ {
+				if err := d.C.Subscribe(nil, "pad/"+strconv.Itoa(i)); err != nil {
+					c.Violate("request-fails-on-healthy-connection", fmt.Sprintf("padding request %d got %v", i, err), nil)
+					break
+				}
+			}
+			c.Count("long_open_requests_on_the_last_identifier_of_the_range", 1)
+		}
 		keep = start(true, "keep/open", nil)
 		w.WaitUntil(sim.StepTimeout, func() bool { return dropID != 0 })
 		fillers = 0x2000 + 8
